@@ -699,6 +699,31 @@ def gen_focus(rng, kind):
         objs = "a%d,a%d" % (rng.choice([0, 1, 5]), rng.choice([0, 2 ** 64 - 1]))
         for b in range(nb):
             bodies.append([gen_atomic_op(rng, 2) if rng.random() < 0.85 else "yd" for _ in range(rng.randint(2, 7))])
+    elif kind == "chan" and rng.random() < 0.2:
+        # hang-up with messages still buffered: the producers send and then every sender slot is dropped; the consumer (an odd
+        # or an even task: recv_timeout or recv) keeps receiving by all its methods and must drain before it sees the disconnection
+        nb = rng.randint(2, 3)
+        head = ["sp%d" % j for j in range(1, nb)]
+        tail = ["jn%d" % h for h in range(nb - 1)]
+        objs = "a0,c%s,e" % rng.choice(["1", "2", "3", "u", "u"])
+        rx = rng.randrange(nb)
+        for b in range(nb):
+            ops = []
+            if b == rx:
+                for _ in range(rng.randint(2, 6)):
+                    ops.append(rng.choice(["rc1", "rc1", "tc1", "yd"]))
+                if rng.random() < 0.3:
+                    ops.append("ri1")
+            else:
+                for _ in range(rng.randint(1, 3)):
+                    ops.append("%s1.%d.%d" % (rng.choice(["sd", "ts"]), b, rng.randrange(1, 100)))
+                ops.append("dt1.%d" % b)
+            bodies.append(ops)
+        # the slots nobody owns (and the consumer's own) are dropped by the first producer
+        prod = next(b for b in range(nb) if b != rx)
+        for sl in range(3):
+            if sl >= nb or sl == rx:
+                bodies[prod].append("dt1.%d" % sl)
     else:   # chan
         nb = rng.randint(2, 3)
         head = ["sp%d" % j for j in range(1, nb)]
